@@ -12,7 +12,10 @@ THEOREMS = core.theorems_in(['C04.lean'], 'Flowdyn.C04') + ['Flowdyn.C11.kappa_q
             'Flowdyn.C11.recL_linear', 'Flowdyn.C11.recR_linear', 'Flowdyn.C11.conv_stencil', 'Flowdyn.C05.butcher_tables_order',
             'Flowdyn.C05.ls_tables_order2', 'Flowdyn.C09.upwind_step_tvd', 'Flowdyn.C01.balance1d', 'Flowdyn.C02.eHlle_consistent', 'Flowdyn.C02.eHllc_consistent']
 AUDIT_IMPORTS = ['Flowdyn.Props.C09', 'Flowdyn.Props.C01', 'Flowdyn.Props.C02']
-PARTIAL = {"convergence": "a limit statement about sequences of meshes: only its algebraic ingredients are theorems (polynomial exactness and the exact quadratic defect (k-1/3)h^2/2 of the kappa reconstruction, temporal order conditions, Lax-Richtmyer accumulation, conservation + consistency); observed orders are measured by the sweep",
+AUDIT_IMPORTS = AUDIT_IMPORTS + ['Flowdyn.Props.C04b']
+THEOREMS = THEOREMS + core.theorems_in(['C04b.lean'], 'Flowdyn.C04')
+PARTIAL = {"first order": "PROVED (C04b): the first-order upwind scheme of the model (explicit step of the extrapol1 periodic uniform convection pipeline, either speed sign, any CFL <= 1, constant or varying time steps) converges in the max norm with the explicit bound (M/2)|a| h T (1 - nu) to the exact translated profile for every L-periodic profile with M-Lipschitz derivative, for point-value and for exact cell-average initial data, and is exact at CFL = 1",
+           "convergence (orders 2 and 3, RK integrators)": "a limit statement about sequences of meshes: for the higher-order reconstructions and the Runge-Kutta integrators only the algebraic ingredients are theorems (polynomial exactness and the exact quadratic defect (k-1/3)h^2/2 of the kappa reconstruction, temporal order conditions, Lax-Richtmyer accumulation, conservation + consistency); observed orders are measured by the sweep",
            "Riemann problems": "monotone L1-error decrease for Euler Riemann problems has no available proof; explored against an independent exact Riemann solver written in the harness",
            "reference solutions": "flowdyn.solution wraps the external aerokit package (not modelled); compared numerically with the independent solver"}
 LEVEL_NOTE = "partial by nature: algebraic order conditions proved, convergence itself explored"
@@ -85,7 +88,14 @@ def oracle(ctx, seeds=None):
         if name not in ('extrapol3', 'muscl') and name != 'extrapol1' and obs > expected + 0.8:
             res.count('super-convergent-' + name)
     # ---- Riemann problems: L1 error decreases under refinement, against the independent exact solver
-    for i in range(ctx.n(6, 60)):
+    SOD_L, SOD_R = (1.0, 0.0, 1.0), (0.125, 0.0, 0.1)
+    canon = []
+    for us in (0.0, 0.9, -0.9):        # Sod's tube at rest and in a uniform stream to either side, and the mirror images
+        L_, R_ = (SOD_L[0], us, SOD_L[2]), (SOD_R[0], us, SOD_R[2])
+        for fx in ('hllc', 'hlle'):
+            canon.append((L_, R_, fx)); canon.append(((R_[0], -R_[1], R_[2]), (L_[0], -L_[1], L_[2]), fx))
+    nrand = ctx.n(6, 60)
+    for i in range(nrand + len(canon)):
         gam = float(rng.choice([1.4, 5.0 / 3.0]))
         rL, pL = float(10.0 ** rng.uniform(-0.5, 0.5)), float(10.0 ** rng.uniform(-0.5, 0.5))
         rR, pR = rL * float(10.0 ** rng.uniform(-1, 0)), pL * float(10.0 ** rng.uniform(-1, 0))
@@ -93,7 +103,12 @@ def oracle(ctx, seeds=None):
         L = (rL, float(rng.uniform(-0.5, 0.5) * cL), pL); R = (rR, float(rng.uniform(-0.5, 0.5) * cR), pR)
         if i % 2:
             L, R = (R[0], -R[1], R[2]), (L[0], -L[1], L[2])     # left-running strong waves
+        if i >= nrand:
+            gam = 1.4; L, R = canon[i - nrand][:2]
+            cL, cR = np.sqrt(gam * L[2] / L[0]), np.sqrt(gam * R[2] / R[0])
         flux = str(rng.choice(['hlle', 'hllc']))
+        if i >= nrand:
+            flux = canon[i - nrand][2]
         muscl = bool(i % 3 == 0)
         num = (lambda: impl.xnum.muscl(impl.xnum.minmod)) if muscl else (lambda: impl.xnum.extrapol1())
         integ = str(rng.choice(['rk2_heun', 'rk3ssp']))
